@@ -425,11 +425,100 @@ where
     }
 }
 
+/// pick_cube_uniform with ONE cache object kept across reorderings, other handles and gc: the
+/// cache must be invalidated by whatever recycles node slots (documented: "the cache is
+/// invalidated on gc and reordering"), otherwise counts of other functions steer the sampling.
+fn uniform_reuse_kind<K: BoolKind>(ctx: &mut Ctx, draws: usize)
+where
+    for<'id> MgrOf<'id, K>: HasWorkers,
+    for<'x> INodeOfFunc<'x, K::F>: HasLevel,
+{
+    let k = K::NAME;
+    let n = 6u32;
+    let mut frng = crate::rng::Rng::new(0x5EED_0002 + ctx.shard as u64 * 31); // fixed seeds: statistical test
+    let rounds = ctx.by_tier(1, 4);
+    for round in 0..rounds {
+        let mref = setup::<K>(1 << 14, 1 << 10, 1, n);
+        let t = Tt::random(n, &mut frng);
+        let t2 = Tt::random_biased(n, &mut frng);
+        let f = build_shannon::<K>(&mref, &t);
+        let g = build_shannon::<K>(&mref, &t2);
+        let mut cache: Cache = Default::default();
+        cache.cache_all = true;
+        let mut orng = oxidd::util::Rng::new_seed(0xABCD_1000 + round as u64 + ctx.shard as u64 * 7);
+        let mut phase = |ctx: &mut Ctx, h: &K::F, t: &Tt, what: &str, cache: &mut Cache| {
+            let models = t.count_ones() as usize;
+            if models < 2 {
+                return;
+            }
+            let mut hits = vec![0f64; 1 << n];
+            for _ in 0..draws {
+                let Some(c) = h.pick_cube_uniform(cache, &mut orng) else {
+                    ctx.violation(&format!("{k}:pick_cube_uniform:none-for-sat"), format!("{what}: f={t}"));
+                    return;
+                };
+                let cube: Vec<Option<bool>> = c.iter().map(|&o| ob(o)).collect();
+                let ct = cube_tt(n, &cube);
+                if ct.is_zero() || !ct.implies(t) {
+                    ctx.violation(&format!("{k}:pick_cube_uniform:non-model"), format!("{what}: f={t} cube {cube:?}"));
+                    return;
+                }
+                let w = 1.0 / ct.count_ones() as f64;
+                for a in 0..(1usize << n) {
+                    if ct.get(a) {
+                        hits[a] += w;
+                    }
+                }
+            }
+            ctx.evals(draws as u64);
+            let exp = draws as f64 / models as f64;
+            let chi2: f64 = (0..(1usize << n)).filter(|&a| t.get(a)).map(|a| (hits[a] - exp).powi(2) / exp).sum();
+            let df = (models - 1).max(1) as f64;
+            let z = 6.2f64;
+            let thr = df * (1.0 - 2.0 / (9.0 * df) + z * (2.0 / (9.0 * df)).sqrt()).powi(3);
+            if chi2 > thr {
+                ctx.violation(
+                    &format!("{k}:pick_cube_uniform:biased-with-reused-cache"),
+                    format!("{what}: f={t}: chi2 {chi2:.1} > {thr:.1} (df {df}) after {draws} draws"),
+                );
+            } else {
+                ctx.distinct((k, "uniform-reuse", what.to_string(), t.clone()));
+            }
+            ctx.count("uniform_draws_reused_cache", draws as u64);
+        };
+        phase(ctx, &f, &t, "fresh cache", &mut cache);
+        // garbage, then a reordering that frees and re-uses node slots; no gc in between
+        for _ in 0..6 {
+            drop(build_shannon::<K>(&mref, &Tt::random(n, &mut frng)));
+        }
+        let mut order: Vec<u32> = (0..n).rev().collect();
+        if round % 2 == 1 {
+            order = frng.perm(n as usize);
+        }
+        set_order(&mref, &order);
+        phase(ctx, &f, &t, "same cache after set_var_order", &mut cache);
+        phase(ctx, &g, &t2, "same cache, other handle", &mut cache);
+        drop(build_shannon::<K>(&mref, &Tt::random(n, &mut frng)));
+        mref.with_manager_shared(|m| m.gc());
+        for _ in 0..4 {
+            drop(build_shannon::<K>(&mref, &Tt::random(n, &mut frng)));
+        }
+        phase(ctx, &f, &t, "same cache after gc and new nodes", &mut cache);
+        set_order(&mref, &(0..n).collect::<Vec<_>>());
+        phase(ctx, &g, &t2, "same cache after a second set_var_order", &mut cache);
+        ctx.sample(|| format!("{k} pick_cube_uniform with one cache across set_var_order {order:?} / other handle / gc / set_var_order: 5 x {draws} draws, chi-square per phase"));
+    }
+}
+
 pub fn uniform(ctx: &mut Ctx) {
     let draws = ctx.by_tier(20_000, 200_000);
     uniform_kind::<Bdd>(ctx, draws);
     uniform_kind::<Bcdd>(ctx, draws);
     uniform_kind::<Zbdd>(ctx, draws);
+    let draws = ctx.by_tier(20_000, 100_000);
+    uniform_reuse_kind::<Bdd>(ctx, draws);
+    uniform_reuse_kind::<Bcdd>(ctx, draws);
+    uniform_reuse_kind::<Zbdd>(ctx, draws);
 }
 
 #[allow(unused)]
